@@ -90,7 +90,8 @@ class S(object):
 def item(s, kind=None, outcome=None):
     cfg = s.cfg
     if cfg.batch_free:
-        return s.pick([["const", s.int(0, 9)], ["const", s.int(0, 9)], ["afn", s.int(0, 3)], ["nonef"], None])
+        return s.pick([["const", s.int(0, 9)], ["const", s.int(0, 9)], ["afn", s.int(0, 3)], ["nonef"], None,
+                       ["excval", s.int(0, 3)], ["pfn", s.int(0, 3)], ["acall", s.int(0, 2), s.int(0, 3)]])
     if kind is None:
         kind = s.pick(cfg.kinds)
     if outcome is None:
